@@ -263,7 +263,7 @@ def build(repo):
     # ------------------------------------------------------------------ C14 / C01 (5): the direction generators clip every returned direction into [lower, upper]
     for q, loopkey in (('random_directions_within_bounds', 'for:i#1'), ('random_orthog_directions_within_bounds', 'for:i#5')):
         D.contract(q, tags=['C14', 'C01'], params={'num_pts': 'int', 'delta': 'fp', 'lower': 'fp', 'upper': 'fp'},
-                   requires=['A-nan:: notnan(lower) and notnan(upper)', 'lower <= upper'], modifies=[], result='fp',
+                   requires=['A-nan:: notnan(lower) and notnan(upper)'], modifies=[], result='fp',
                    loops={loopkey: ['columns already processed by the final loop are inside the bounds:: implies(0 <= G.col and G.col < i_, lower <= results and results <= upper)',
                                     'A-nan (directions computed from normalised Gaussians / QR columns are not NaN):: notnan(results)']},
                    ensures=['every returned direction lies inside [lower, upper], exactly:: implies(0 <= G.col and G.col < num_pts, lower <= result and result <= upper)'])
